@@ -78,7 +78,7 @@ class Report:
                              [{'function': f['function'], 'cfg': f['cfg'], **f['bounded_in_D']} for f in bd[:3]], 'D in %s' % sorted(set(d for f in bd for d in f['bounded_in_D']['D'])))
         ev = sum(b['evaluations'] for b in self.bounded); dn = sum(b['distinct_nontrivial'] for b in self.bounded)
         level = self.claimed
-        if level == 'proof' and (obligations == 0 or discharged < obligations): level = 'other'
+        if level == 'proof' and (obligations == 0 or discharged < obligations or any(u['obligation'].endswith('[coverage]') for u in self.undecided)): level = 'other'      # code no obligation speaks about: not a proof of this tree
         cov = {'obligations': obligations, 'discharged': discharged,
                'checker_cmd': './check %s --tier %s' % (self.pid, self.tier),
                'trusted_base': self.trusted,
